@@ -24,6 +24,9 @@ var fmtLines = []string{
 	"{{n}}x",
 }
 
+// fmtInteract: lines whose meaning depends on other lines of the file
+var fmtInteract = []string{"##!+ i", "##!> define n v", "{{n}}x", "##!> assemble", "##!<", "##!=>", "##!^ p", "##!$ s", "foo", "##!> include inc", "  ##!=< n", "##!=> n"}
+
 // troublemakers of C10: comments that look like directives, odd arguments, glued keywords, upper-case / unsupported flags
 var fmtTrouble = []string{
 	"##! ##!> include inc", "##! ##!+ i", "##! ##!> assemble", "##! ##!<", "##!+ I", "##!+ x", "##!> cmdline unix extra", "##!> assemblefoo",
